@@ -81,8 +81,16 @@ def mergeFuel : Nat → List (List FMsg) → List FMsg
 
 def merge (ss : List (List FMsg)) : List FMsg := mergeFuel (ss.map List.length).sum ss
 
+/-- the merge ranks the streams by the reception time of their first message (stable), so that among heads with equal
+    reception times the stream that started first wins - whatever the order the streams were passed in -/
+def insertStream (s : List FMsg) : List (List FMsg) → List (List FMsg)
+  | [] => [s]
+  | g :: t => if (s.head?.map (·.recv)).getD 0 < (g.head?.map (·.recv)).getD 0 then s :: g :: t else g :: insertStream s t
+def rankStreams (ss : List (List FMsg)) : List (List FMsg) := ss.foldl (fun acc s => insertStream s acc) []
+
 /-- all messages of all named files in the order `convert` processes them; the position is the message index -/
-def inputSeq (files : List File) : List FMsg := merge ((orderInputs files).map groupMsgs)
+def inputSeq (files : List File) : List FMsg :=
+  merge (rankStreams (((orderInputs files).map groupMsgs).filter fun s => !s.isEmpty))
 
 /-! ### pipeline -/
 
